@@ -125,8 +125,9 @@ class C11(Prop):
         e = [float(rng.randint(-20, 20)), float(rng.randint(-20, 20)), float(rng.choice([30, 60, 100])), float(rng.choice([20, 45, 90]))]
         vb = [origin(rng), origin(rng), float(rng.choice([10, 40, 25])), float(rng.choice([10, 80, 15]))]
         rect = [round(rng.uniform(-5, 5), 1), round(rng.uniform(-5, 5), 1), float(rng.randint(1, 8)), float(rng.randint(1, 8))]
+        # the inner element's position and size written as numbers or as percentages of the (non-square) outer viewport
         return {"k": "nested", "outer_al": outer_al, "al": inner_al, "mo": inner_mo, "e": e, "vb": vb, "rect": rect,
-                "wrap": rng.random() < 0.5}
+                "wrap": rng.random() < 0.5, "pct": [rng.random() < 0.4 for _ in range(4)]}
 
     def tag(self, case):
         t = [case["k"]]
@@ -178,11 +179,14 @@ class C11(Prop):
             if k == "nested":
                 e, vb, r = case["e"], case["vb"], case["rect"]
                 par = self._par(case)
-                inner = '<svg x="%r" y="%r" width="%r" height="%r" viewBox="%r %r %r %r"%s><rect x="%r" y="%r" width="%r" height="%r"/></svg>' % (
-                    tuple(e) + tuple(vb) + ((' preserveAspectRatio="%s"' % par) if par else "",) + tuple(r))
+                OW, OH = 300.0, 120.0
+                pct = case.get("pct") or [False] * 4
+                sp = [("%r%%" % (v / b * 100.0)) if q else repr(v) for v, b, q in zip(e, (OW, OH, OW, OH), pct)]
+                inner = '<svg x="%s" y="%s" width="%s" height="%s" viewBox="%r %r %r %r"%s><rect x="%r" y="%r" width="%r" height="%r"/></svg>' % (
+                    tuple(sp) + tuple(vb) + ((' preserveAspectRatio="%s"' % par) if par else "",) + tuple(r))
                 if case["wrap"]:
                     inner = "<g>" + inner + "</g>"
-                doc = ('<svg xmlns="http://www.w3.org/2000/svg" width="200" height="200" viewBox="0 0 200 200" '
+                doc = ('<svg xmlns="http://www.w3.org/2000/svg" width="300" height="120" viewBox="0 0 300 120" '
                        'preserveAspectRatio="%s">%s</svg>') % (case["outer_al"], inner)
                 svg = SVG.parse(io.StringIO(doc), reify=True)
                 rects = [x for x in svg.elements() if isinstance(x, Rect)]
